@@ -4,6 +4,8 @@
 \*   UdpMinLen - parseUDPHeader refused every datagram shorter than 10 bytes.
 \* Conforms holds because every divergence from the reference is explained by a fired deviation (`dev`);
 \* PlainJoin - (seeded change r3m2) SocksAdapter.handleRequest builds "host:port" by concatenation, so a name with ":" does not split.
+\* NetipText - (seeded change r5m3) the parsers print IP addresses with net/netip: observably the same wherever the text is only handed
+\*               on (listener, adapter); on the UDP path the encoder reads an IPv4-mapped address back as IPv4 and the round trip breaks.
 \* NoDev is deliberately NOT checked here (it fails: e.g. datagram 00 00 00 03 01 61 00 35).
 CONSTANTS
   Emit = FALSE
@@ -16,6 +18,8 @@ CONSTANTS
   CutChunkings = {"all", "msg", "bytes", "split"}
   WithUdp = TRUE
   PlainJoin = {"adapter", "adapterauth"}
+  NetipText = {"listener", "adapter", "adapterauth", "udp"}
+  ValClasses = TRUE
 INIT Init
 NEXT Next
 INVARIANTS TypeOK Conforms NoReadPast ExpectFixed UdpRoundTrip DoneIsFinal HostPort
